@@ -2,6 +2,11 @@ module github.com/free5gc/chf/verifh
 
 go 1.21
 
-require github.com/free5gc/chf v0.0.0
+require (
+	github.com/free5gc/chf v0.0.0
+	github.com/free5gc/openapi v1.1.0
+)
+
+require github.com/golang-jwt/jwt/v5 v5.2.2 // indirect
 
 replace github.com/free5gc/chf => /repo
